@@ -313,7 +313,7 @@ def cases_for(max_n, budget, isd_iters, seed, max_L, max_L_2d, max_color, elonga
 
 def run(ctx):
     if ctx.tier == 'quick':
-        cases = cases_for(150, 1500000, 20, ctx.seed, 5, 8, 3, (10, (2, 3)))
+        cases = cases_for(170, 1500000, 20, ctx.seed, 5, 8, 3, (10, (2, 3)))
     else:
         cases = cases_for(320, 20000000, 300, ctx.seed, 6, 12, 4, (14, (2, 3, 4)))
     ctx.note('instances', len(cases))
